@@ -130,6 +130,13 @@ class _Waiter:
     enqueue_time_ns: int
 
 
+# Float amounts: a legitimate release may overshoot the capacity by accumulated
+# round-off; only an excess beyond this (relative) bound is an over-release.
+_RELEASE_ROUNDOFF = 1e-9
+# ... and a release that lands this close to the full capacity makes it exact again.
+_FULL_ROUNDOFF = 1e-12
+
+
 class Resource(Entity):
     """Shared capacity pool that multiple entities can acquire from.
 
@@ -299,16 +306,25 @@ class Resource(Entity):
     def _do_release(self, amount: int | float) -> None:
         """Internal: return capacity and wake eligible waiters.
 
-        Called by Grant.release(). Raises if release would exceed capacity.
+        Called by Grant.release(). Raises if release would exceed capacity
+        (by more than float round-off).
         """
         future_available = self._available + amount
-        if future_available > self._capacity:
+        excess = future_available - self._capacity
+        if excess > _RELEASE_ROUNDOFF * max(1.0, abs(self._capacity)):
             raise ValueError(
                 f"releasing {amount} would exceed capacity "
                 f"({self._available} + {amount} > {self._capacity})"
             )
+        if excess > 0 or -excess <= _FULL_ROUNDOFF * abs(self._capacity):
+            # Float amounts do not add up exactly: 0.5 - 5e-10 + 5e-10 is
+            # 0.5000000000000001, other sequences end an ulp below the capacity.
+            # A release that brings the resource back to full, give or take
+            # round-off, restores the exact capacity, so the error neither
+            # rejects a legitimate release nor starves a full-capacity waiter.
+            future_available = self._capacity
 
-        self._available += amount
+        self._available = future_available
         self._releases += 1
 
         logger.debug(
